@@ -153,6 +153,58 @@ class _LazyGen:
         self.done = True
 
 
+class _TaskSim(PyModel):
+    """A task created from a not yet awaited call (``ensure_future(self.x())``) in a function that hands it to ``asyncio.wait``: the
+    call is evaluated - with its modelled outcomes - when the task is waited for or awaited; an exception it ends with is stored in
+    the task, as asyncio does, and raised only by ``result()`` / ``await``."""
+
+    def __init__(self, px, node, frame):
+        self.px, self.node, self.frame = px, node, frame
+        self.state, self.value, self.exc, self.callbacks = "pending", None, None, []
+
+    def __repr__(self):
+        return f"<task {ast.unparse(self.node.func)} {self.state}>"
+
+    def _run(self):
+        if self.state != "pending":
+            return
+        try:
+            self.value = self.px.e_Call(self.node, self.frame, awaited=True)
+            self.state = "done"
+        except Exc as ex:
+            self.exc, self.state = ex, ("cancelled" if ex.cls_name == "CancelledError" else "done")
+
+    def done(self):
+        return self.state != "pending"
+
+    def cancelled(self):
+        return self.state == "cancelled"
+
+    def cancel(self):
+        if self.state != "pending":
+            return False
+        self.state, self.exc = "cancelled", Exc("CancelledError", origin="task.cancel")
+        self.px.emit("call", f"{ast.unparse(self.node.func)}:task.cancel", (), {})
+        return True
+
+    def result(self):
+        if self.state == "pending":
+            raise Exc("InvalidStateError", ("Result is not set.",), origin="task.result")
+        if self.exc is not None:
+            raise self.exc
+        return self.value
+
+    def exception(self):
+        if self.state == "pending":
+            raise Exc("InvalidStateError", ("Exception is not set.",), origin="task.exception")
+        if self.state == "cancelled":
+            raise self.exc
+        return None if self.exc is None else (self.exc.value or Obj(TypeRef(self.exc.cls_name), {}, tag=self.exc.cls_name))
+
+    def add_done_callback(self, cb):
+        self.callbacks.append(cb)
+
+
 class PX:
     @property
     def _yield_stack(self):
@@ -1812,19 +1864,21 @@ class PX:
 
     def e_Await(self, e, fr):
         inner = e.value
-        if isinstance(inner, ast.Call) and _text(inner.func) == "asyncio.shield" and len(inner.args) == 1 and not inner.keywords \
-                and not isinstance(inner.args[0], ast.Call) and self.model_for("asyncio.shield") is None:
-            # awaiting shield(fut) of an existing future / task is awaiting fut as far as results, exceptions and time-outs go (the
-            # difference - fut survives the waiter's cancellation - is not visible on the waiter's paths); rules that care about the
-            # shield itself (R01.1) model it
-            inner = inner.args[0]
         if isinstance(inner, ast.Call):
             return self.e_Call(inner, fr, awaited=True)
         v = self.ev(inner, fr)
         text = _text(inner)
         return self.do_await(text, v, fr, e)
 
+    def _uses_asyncio_wait(self, fr):
+        fnode = getattr(getattr(fr, "func", None), "node", None)
+        return fnode is not None and any(isinstance(c, ast.Call) and _text(c.func) == "asyncio.wait" for c in ast.walk(fnode))
+
     def do_await(self, text, v, fr, node):
+        if isinstance(v, _TaskSim):
+            v._run()
+            self.epoch += 1
+            return v.result()
         model = self.model_for("await:" + text)
         if model is None and isinstance(v, (Sym, Obj)) and v.tag != text:
             model = self.model_for("await:" + v.tag)  # match on the awaited value, whatever the local is called
@@ -1905,6 +1959,37 @@ class PX:
                 self.ctxstack = self.ctxstack[:i] + self.ctxstack[i + 1:]
                 self.emit("exit", recv, node=e, frame=fr)
                 return None
+        # tasks handed to asyncio.wait (see _TaskSim)
+        if (text in ("asyncio.ensure_future", "asyncio.create_task") or text.endswith("loop.create_task")) and len(e.args) == 1 and isinstance(e.args[0], ast.Call) \
+                and not awaited and self.model_for(text) is None and self._uses_asyncio_wait(fr):
+            self.emit("call", text, (), {}, node=e, frame=fr, extra="task")
+            return _TaskSim(self, e.args[0], fr)
+        if text == "asyncio.wait" and awaited and e.args and self.model_for(text) is None:
+            args, kw = self.ev_args(e, fr)
+            tasks = list(args[0]) if isinstance(args[0], (set, frozenset, list, tuple)) else None
+            if tasks is not None and all(isinstance(t_, _TaskSim) for t_ in tasks):
+                self.epoch += 1
+                bounded = kw.get("timeout") is not None
+                if bounded:
+                    # a bounded wait: what the tasks await while it lasts is awaited under that time limit
+                    self.emit("enter", "asyncio_timeout", (kw["timeout"],), {}, node=e, frame=fr)
+                    self.ctxstack = self.ctxstack + ["asyncio_timeout"]
+                try:
+                    for t_ in tasks:
+                        if t_.state == "pending" and not (bounded and self.choose(2, f"asyncio.wait: {t_!r} still pending at the time-out")):
+                            auto, self.auto_timeout = self.auto_timeout, False  # (the limit ends the wait, it is not raised into the task)
+                            self.in_wait_task = True
+                            try:
+                                t_._run()
+                            finally:
+                                self.auto_timeout, self.in_wait_task = auto, False
+                finally:
+                    if bounded:
+                        self.ctxstack = self.ctxstack[:-1]
+                        self.emit("exit", "asyncio_timeout", node=e, frame=fr)
+                done = {t_ for t_ in tasks if t_.done()}
+                self.emit("await", text, tuple(args), kw, node=e, frame=fr, extra=(len(done), len(tasks) - len(done)))
+                return (done, set(tasks) - done)
         # super().method(...)
         if isinstance(e.func, ast.Attribute) and isinstance(e.func.value, ast.Call) and _text(e.func.value.func) == "super":
             args, kw = self.ev_args(e, fr)
